@@ -180,11 +180,48 @@ class Capture:
         self.cls.generate = self.orig
 
 
-def drive(run, gen_name, t, expect_reject, source, dir_state, root, probe=None, known_names=None, before=None):
+PATH_STYLES = ["absolute", "absolute", "relative", "absolute", "dot-dot", "absolute", "symlinked-parent", "trailing-slash", "relative-dot"]
+
+
+def drive(run, gen_name, t, expect_reject, source, dir_state, root, probe=None, known_names=None, before=None, path_style=None):
+    """How the caller SPELLS the output directory says nothing about what is written there: the same directory is
+    given as an absolute path, relative to the working directory, through '..', through a symbolic link."""
+    if path_style is None:
+        path_style = PATH_STYLES[run.counters.get("drive_calls", 0) % len(PATH_STYLES)]
+    run.count("drive_calls")
+    back = os.getcwd()
+    link = os.path.join(root, "lnk")
+    try:
+        if path_style.startswith("relative"):
+            os.chdir(root)
+        if path_style == "symlinked-parent" and not os.path.islink(link):
+            os.symlink(root, link)
+        return _drive(run, gen_name, t, expect_reject, source, dir_state, root, probe, known_names, before, path_style)
+    finally:
+        os.chdir(back)
+        if os.path.islink(link):
+            os.unlink(link)
+
+
+def spelled(out_dir, root, style):
+    if style == "relative":
+        return "out"
+    if style == "relative-dot":
+        return os.path.join(".", "neighbour", "..", "out")
+    if style == "dot-dot":
+        return os.path.join(root, "neighbour", "..", "out")
+    if style == "symlinked-parent":
+        return os.path.join(root, "lnk", "out")
+    if style == "trailing-slash":
+        return out_dir + os.sep
+    return out_dir
+
+
+def _drive(run, gen_name, t, expect_reject, source, dir_state, root, probe, known_names, before, path_style):
     from fcp.codegen import GeneratorManager
     from fcp.verifier import make_general_verifier
 
-    case = {"generator": gen_name, "rejection_source": source, "dir_state": dir_state, "tree": t}
+    case = {"generator": gen_name, "rejection_source": source, "dir_state": dir_state, "tree": t, "path_style": path_style}
     try:
         fcp = c09.build(t)
     except Exception as e:
@@ -285,6 +322,9 @@ def drive(run, gen_name, t, expect_reject, source, dir_state, root, probe=None, 
             run.violation("the plug-in's generate() raised %s: %s on a schema every check accepts" % (type(e).__name__, e), case)
             return
     out_dir = prepare_dir(root, dir_state, known_names, contents)
+    arg_dir = spelled(out_dir, root, path_style)
+    case["output_directory_as_given"] = arg_dir
+    run.count("path_style/" + path_style)
     before = audit.snapshot(out_dir)
     outside_before = audit.snapshot(os.path.join(root, "neighbour"))
     cap = Capture(gen_name)
@@ -293,7 +333,7 @@ def drive(run, gen_name, t, expect_reject, source, dir_state, root, probe=None, 
     try:
         with audit.Recorder() as rec:
             try:
-                result = (mgr or GeneratorManager(verifier)).generate(gen_name, None, None, fcp, out_dir)
+                result = (mgr or GeneratorManager(verifier)).generate(gen_name, None, None, fcp, arg_dir)
             except SystemExit:
                 run.inconclusive_because("generator %s is not installed" % gen_name)
                 return
@@ -347,7 +387,7 @@ def drive(run, gen_name, t, expect_reject, source, dir_state, root, probe=None, 
         want = {}
         for f in cap.returned:
             if f.get("type") == "file":
-                want[os.path.normpath(os.path.relpath(str(f["path"]), out_dir))] = str(f["contents"])
+                want[os.path.normpath(os.path.relpath(os.path.realpath(str(f["path"])), os.path.realpath(out_dir)))] = str(f["contents"])
         case["returned_files"] = sorted(want)
         after_files = {k: v for k, v in (after or {}).items() if v[0] == "file"}
         before_files = {k: v for k, v in (before or {}).items() if v[0] == "file"}
@@ -376,8 +416,8 @@ def drive(run, gen_name, t, expect_reject, source, dir_state, root, probe=None, 
                 run.violation("pre-existing files %s were deleted by a successful generation" % removed, case)
                 return
         for kind, p, p2 in muts:
-            ap = os.path.abspath(p)
-            if not (ap == os.path.abspath(out_dir) or ap.startswith(os.path.abspath(out_dir) + os.sep)):
+            ap = os.path.realpath(p)
+            if not (ap == os.path.realpath(out_dir) or ap.startswith(os.path.realpath(out_dir) + os.sep)):
                 run.violation("successful generation touched %s outside the output directory (%s)" % (p, kind), case)
                 return
         run.count("successes_wrote_exactly_returned")
@@ -514,7 +554,7 @@ def run(run):
 
 
 def conclude(run):
-    run.require("edited_after_acceptance", "cli_runs", "generate_calls", "rejections_wrote_nothing", "successes_wrote_exactly_returned", "files_compared")
+    run.require("path_style/relative", "path_style/symlinked-parent", "path_style/dot-dot", "edited_after_acceptance", "cli_runs", "generate_calls", "rejections_wrote_nothing", "successes_wrote_exactly_returned", "files_compared")
 
 
 def replay(run, case):
@@ -530,6 +570,6 @@ def replay(run, case):
             _, cat, pos = src.split("/")
             probe = (cat, pos)
         before = (case["tree_before"], case["first_generator"]) if "tree_before" in case else ((case["rejected_before"], case["first_generator"], "rejected-first") if "rejected_before" in case else None)
-        drive(run, case["generator"], case["tree"], src != "none", src, case["dir_state"], root, probe=probe, before=before)
+        drive(run, case["generator"], case["tree"], src != "none", src, case["dir_state"], root, probe=probe, before=before, path_style=case.get("path_style", "absolute"))
     finally:
         shutil.rmtree(root, ignore_errors=True)
